@@ -167,6 +167,20 @@ func rulesC11(w *World, o *Out) {
 		}
 		o.Analysed(w.FuncKey(ch))
 		H := hashedFields(fl, ch)
+		// the hashed bytes must distinguish the field values: no normalising function on the way
+		lossy := ""
+		for _, r := range Returns(ch) {
+			if len(r.Ret.Results) == 0 {
+				continue
+			}
+			if c := fl.DependsOnCall(r.Ret.Results[0], isLossyStringFunc); c != nil {
+				if cal, okc := CalleeOf(c.Common()); okc {
+					lossy = cal.String()
+				}
+			}
+		}
+		o.Check("C11.R1", name+"|hash input is not normalised", lossy == "", w.Pos(ch.Pos()),
+			"the claim hash passes the field values through "+lossy+", which maps different values to the same bytes (dropped / cleaned elements, case folding, trimming): claims that differ in a free-form field are pooled into one attestation")
 		R := w.fieldsRead(T, excl)
 		var rk []string
 		for k := range R {
@@ -272,4 +286,21 @@ func rulesC11(w *World, o *Out) {
 			o.Check("C11.R3", "GetAttestationKey|key depends on nonce and hash", len(aps.ParamPaths(gak.Params[0].Name())) > 0 && len(aps.ParamPaths(gak.Params[1].Name())) > 0, w.Pos(r.Ret.Pos()), "both parameters must influence the key")
 		}
 	}
+}
+
+// isLossyStringFunc: standard-library functions that map distinct inputs to equal outputs.
+func isLossyStringFunc(c Callee) bool {
+	switch c.Pkg {
+	case "path", "path/filepath":
+		return true
+	case "strings", "bytes":
+		switch c.Name {
+		case "TrimSpace", "Trim", "TrimLeft", "TrimRight", "TrimPrefix", "TrimSuffix", "TrimFunc", "ToLower", "ToUpper", "ToTitle", "Title",
+			"Replace", "ReplaceAll", "Fields", "FieldsFunc", "Map", "ToValidUTF8", "EqualFold":
+			return true
+		}
+	case "unicode", "golang.org/x/text/cases", "golang.org/x/text/unicode/norm":
+		return true
+	}
+	return false
 }
